@@ -167,7 +167,9 @@ func evaluate(c Case) (o Outcome) {
 	}
 	if encErr != nil {
 		o.Refused, o.EncErr = true, encErr.Error()
-		if o.Class == classClean {
+		// a refusal is only a finding where the style table defines a serialization: for its n/a cells
+		// (an empty value or empty collection in a path segment, ...) an error is a legitimate answer
+		if _, defined := refSerialize(c); o.Class == classClean && defined {
 			add(vk.F(refusedClassifier(c), "%s %s=%s: no piece contains a delimiter of this serialization, but the encoder refuses: %v",
 				c.Combo, c.Name, valueString(c), encErr))
 		}
